@@ -114,11 +114,24 @@ fn case_ctor_hms(h: u32, m: u32, s: u32, acc: &mut Acc) {
     acc.branch(if valid { "ctor-accepted" } else { "ctor-refused" });
 }
 
+/// a Time obtained from text: whatever Time::parse / from_str accept must lie inside the day
+fn case_parse_inside_day(input: &str, pattern: &str, acc: &mut Acc) {
+    use std::str::FromStr;
+    acc.transitions += 1;
+    acc.states += 1;
+    let got = if pattern.is_empty() { call(|| Time::from_str(input).map(|t| (t.as_nanos(), t.as_hms())).map_err(|e| e.to_string())) } else { call(|| Time::parse(input, pattern).map(|t| (t.as_nanos(), t.as_hms())).map_err(|e| e.to_string())) };
+    match &got {
+        Out::Val(Ok((n, (h, m, sec)))) if *n < ab::DAY_NS && *h < 24 && *m < 60 && *sec < 60 => acc.branch("parsed-inside-the-day"),
+        Out::Val(Err(_)) => acc.branch("parse-refused"),
+        other => acc.violation(if pattern.is_empty() { "Time::from_str" } else { "Time::parse" }, "time-outside-the-day-or-panic", json!({"kind": "parse", "input": input, "pattern": pattern}), "Err, or a Time below 24:00:00".into(), other.show()),
+    }
+}
+
 pub fn run(ctx: &Ctx) -> i32 {
     let mut rep = Report::new(ctx);
     rep.rule = "states = distinct (time, offset, operation, amount) tuples and E2 machine states; transitions = real calls compared with (t +/- amount) mod 86 400e9 ns (offset kept), plus the invariant as_nanos() < one day and equality with / same display as the canonical Time on every result; non-trivial = results different from the receiver".into();
     rep.assumptions = vec!["random nanoseconds of the quantifier are replaced by every second of the day x sub-second boundary values and a complete count axis (thorough) / 1/65537 count lattice (quick)".into()];
-    rep.require(&["wraps-around-midnight", "stays-within-day", "from-datetime-bc", "from-datetime-ad", "ctor-accepted", "ctor-refused"]);
+    rep.require(&["wraps-around-midnight", "stays-within-day", "from-datetime-bc", "from-datetime-ad", "ctor-accepted", "ctor-refused", "parsed-inside-the-day", "parse-refused"]);
     let checked = PROFILE == "checked";
     let counts = ab::counts_b();
     let nc = counts.len() as u64;
@@ -220,6 +233,31 @@ pub fn run(ctx: &Ctx) -> i32 {
     let (hb, mb, sb) = (ab::u32_b(23, 3600), ab::u32_b(59, 60), ab::u32_b(59, 1));
     let (a, b, c) = (hb.len() as u64, mb.len() as u64, sb.len() as u64);
     rep.sweep("Time::from_hms: U32_B(23) x U32_B(59) x U32_B(59)", a * b * c, "", |i, acc| case_ctor_hms(hb[(i / (b * c)) as usize], mb[(i / c % b) as usize], sb[(i % c) as usize], acc));
+    // Times obtained from text: every sequence of one to three sub-second fields (tenths .. nanoseconds)
+    // after the clock fields, with digit strings at the top and the bottom of each field, at the ends of the day
+    let subs: [(&str, usize); 5] = [("n", 1), ("nn", 2), ("nnn", 3), ("nnnn", 6), ("nnnnn", 9)];
+    let mut texts: Vec<(String, String)> = vec![];
+    for clock in ["23:59:59", "23:59:56", "00:00:00", "12:00:00", "24:00:00", "23:59:60"] {
+        for zone in ["", " +00:00", " -00:01", " +23:59"] {
+            for a in 0..5 {
+                for b in 0..6 {
+                    for c in 0..6 {
+                        if b == 5 && c != 5 {
+                            continue;
+                        }
+                        let fields: Vec<usize> = [Some(a), (b < 5).then_some(b), (c < 5).then_some(c)].into_iter().flatten().collect();
+                        for fill in ['9', '0', '5'] {
+                            let pat = format!("HH:mm:ss {}{}", fields.iter().map(|f| subs[*f].0).collect::<Vec<_>>().join(" "), if zone.is_empty() { "" } else { " xxx" });
+                            let inp = format!("{} {}{}", clock, fields.iter().map(|f| fill.to_string().repeat(subs[*f].1)).collect::<Vec<_>>().join(" "), zone);
+                            texts.push((inp, pat));
+                        }
+                    }
+                }
+            }
+        }
+        texts.push((clock.to_string(), String::new()));
+    }
+    rep.sweep("Time from text: one to three sub-second fields x {all 9, all 0, all 5} x 6 clock texts x 4 zones, and from_str", texts.len() as u64, "whatever is accepted must be a time of day below 24:00:00", |i, acc| case_parse_inside_day(&texts[i as usize].0, &texts[i as usize].1, acc));
     machine::run_time_machine(&mut rep, if ctx.thorough { 4 } else { 3 });
     let _ = cal::MIN_DAY;
     rep.finish()
@@ -232,6 +270,7 @@ pub fn replay(_op: &str, case: &Value, acc: &mut Acc) -> bool {
         Some("ctor_nanos") => case_ctor_nanos(case["n"].as_str().unwrap().parse().unwrap(), acc),
         Some("ctor_seconds") => case_ctor_seconds(case["s"].as_u64().unwrap() as u32, acc),
         Some("ctor_hms") => case_ctor_hms(case["args"][0].as_u64().unwrap() as u32, case["args"][1].as_u64().unwrap() as u32, case["args"][2].as_u64().unwrap() as u32, acc),
+        Some("parse") => case_parse_inside_day(case["input"].as_str().unwrap(), case["pattern"].as_str().unwrap(), acc),
         Some("machine") => machine::replay_time(case, acc),
         _ => return false,
     }
